@@ -67,6 +67,9 @@ func fsmOrStuck(c *core.Ctx, rule string) *core.FSM {
 	for _, pr := range f.Problems {
 		c.Stuck(rule, "fsm-extraction:"+pr, "channels/channels_fsm.go", "the FSM table is not in the literal form the extractor understands: "+pr)
 	}
+	if len(f.Problems) > 0 {
+		c.Degraded = "the FSM table of channels/channels_fsm.go could not be read completely"
+	}
 	c.Stats["fsm_events_with_rows"] = len(f.Events)
 	c.Stats["fsm_rows"] = len(f.Rows)
 	c.Stats["fsm_statuses"] = len(f.Statuses)
